@@ -186,6 +186,21 @@ def _linear_index_checks(ck):
                 okshape = shape is None or (sorted(len(g) for g in groups) == sorted(shape) and flat == list(range(sum(shape))))
                 ok = back == i and okshape and key not in seen
                 seen[key] = i
+                # the same grouping LISTED differently (groups of equal size in another order, members reversed)
+                if ok and not ordered and groups:
+                    import itertools as _it
+                    for perm in list(_it.permutations(range(len(groups))))[:24]:
+                        if sorted(len(groups[p]) for p in perm) != [len(g) for g in sorted(groups, key=len)] and False:
+                            continue
+                        listing = [list(reversed(groups[p])) for p in perm]
+                        try:
+                            b2 = frm(li.Repr([list(g) for g in listing]))
+                        except Exception as e:
+                            b2 = repr(e)
+                        if b2 != i:
+                            ok = False
+                            back = "listing %s encodes to %s" % (listing, b2)
+                            break
             except Exception as e:
                 ok = False
                 back = repr(e)
@@ -255,6 +270,23 @@ def run(tier, seed):
                 ck.candidate("class-id n=%d id=%d" % (n, cid), dict(kind="classid", n=n, cid=cid), "LCClass%d(%d) does not decode to a grouping that encodes back to %d" % (n, cid, cid))
         ck.count("class-ids n=%d" % n, paths=NCLASSES[n], sig=["cid%d:%d" % (n, c) for c in range(NCLASSES[n])])
     _linear_index_checks(ck)
+    # native side condition (machine semantics / object identity): local_complemented must leave the receiver alone
+    grn = loader.native("graph")
+    nat = 0
+    for n in range(2, 5):
+        for gid in range(2 ** (n * (n - 1) // 2)):
+            for v in range(n):
+                adj = tables.adj_of_id(n, gid)
+                g = grn.Graph(np.array(adj, dtype=np.int8))
+                h = g.local_complemented(v)
+                want = [[adj[i][j] ^ (adj[i][v] & adj[j][v]) if i != j else 0 for j in range(n)] for i in range(n)]
+                ck.obligations += 1
+                nat += 1
+                if g.adjacency_matrix.tolist() == adj and h.adjacency_matrix.tolist() == want and g.copy().adjacency_matrix is not g.adjacency_matrix:
+                    ck.discharged += 1
+                else:
+                    ck.candidate("native lc n=%d gid=%d v=%d" % (n, gid, v), dict(kind="lc", n=n, v=v, gid=gid, label="native"), "native local_complemented(%d) on graph %d (n=%d) modifies the receiver or returns a wrong graph" % (v, gid, n))
+    ck.validated += nat
     # vacuity: the LC identity fails for a wrong layer (identity layer) -> query must be sat
     adj, lits = _sym_adj(3)
     q = lcq.Q()
